@@ -296,7 +296,8 @@ PROPS['C20'] = dict(
             # overlapping Close calls: two closers, K = 2 (safety, 1.1 M states); K = 1 with liveness in the thorough tier
             D('SubDecorator', 'MCSubDecorator_closers2_k2.cfg', workers=8),
             D('SubDecorator', 'MCSubDecorator_closers2.cfg', workers=8, tier='thorough', timeout=1800),
-            D('SubDecorator', 'MCSubDecorator_mut_earlyreturn.cfg', expect='fail', violates='CloseComplete')],
+            D('SubDecorator', 'MCSubDecorator_mut_earlyreturn.cfg', expect='fail', violates='CloseComplete'),
+            D('SubDecorator', 'MCSubDecorator_mut_checkthenclose.cfg', expect='fail', violates='NoDoubleSignal')],
     traces={'PubSubDecoratorsTrace': dict(module='PubSubDecoratorsTrace', cfg='PubSubDecoratorsTrace.cfg'),
             'SubDecoratorTrace': dict(module='SubDecoratorTrace', cfg='SubDecoratorTrace.cfg', timeout=1800)},
     selftests=[('SubDecoratorTrace', 'drop', dict(e='hook', point='decorator.close.signalled'))],
